@@ -61,6 +61,12 @@ Judge(e) ==
          (IF e.writer_nilnil > 0 THEN {"conc.writer.nil-driver"} ELSE {})
          \cup (IF e.reader_nilnil > 0 THEN {"conc.reader.nil-driver"} ELSE {})
          \cup (IF e.panics > 0 THEN {"conc.panic"} ELSE {})
+         \* a format that is registered throughout (and only re-registered) is found by every lookup
+         \cup (IF e.reader_missing > 0 THEN {"conc.reader.registered-format-missing"} ELSE {})
+         \cup (IF e.writer_missing > 0 THEN {"conc.writer.registered-format-missing"} ELSE {})
+    [] e.op = "FRESH" ->
+         \* the first use of the writer package in a process is a registration of a built-in format: it must stick
+         IF e.got = e.want THEN {} ELSE {"conc.writer.first-registration-lost"}
     [] e.op = "RO" -> {}
     [] OTHER -> {"unknown-op." \o e.op}
 
